@@ -317,6 +317,7 @@ DIRECTED = [
     ("(n := len(xs)) > 0 and sum(xs[:n]) > 1000", ["n", "xs"], {"xs": [1, 2, 3], "n": 1}),
     ("(w1 := x) > 0 and (w1 := n) > 0 and abs(w1) > 1000", ["n", "x"], {"x": 5, "n": 7}),
     ("ident((x := x + 1)) > 1000 or ident(x) > 1000", ["x"], {"x": 5}),
+    ("ident(+(x > 0)) > 1000 or ident(-(n > 0)) > 1000 or ident(~(x == 0)) > 1000", ["n", "x"], {"x": 5, "n": 7}),
     ("f'{s!a}' == 'zz'", ["s"], {"s": "Zo\u00eb"}),
     ("f'{s!a:>9}|{s!r:>9}|{s!s:>9}' == 'zz'", ["s"], {"s": "\u03bbx"}),
     ("f'{n!a}{s}' == s", ["n", "s"], {"s": "\u00e9"}),
